@@ -3,8 +3,12 @@
  *                      compute_dist_icf_code, get_dist_icf_code, get_len_icf_code, compare258, compare
  *   igzip/huff_codes.c (-DHUFF_WITH_CODES) convert_dist_to_dist_sym, convert_length_to_len_sym,
  *                      are_hufftables_useable, write_rl (+ the closed-form greedy run-length spec and its
- *                      RFC-validity lemma), create_hufftables_icf (frame only, callees by frame-only contracts)
- *   bounded stand-ins for set_huff_codes, set_dist_huff_codes, rl_encode live in harness/igzip/huff_b.c
+ *                      RFC-validity lemma), rl_encode (-DRL_ENCODE_LOOP: loop contract over a block stub of write_rl),
+ *                      create_packed_len_table, create_packed_dist_table, expand_hufftables_icf (vs the RFC tables),
+ *                      create_huffman_header / create_header (-DHUFF_HDR, header layout RFC 1951 3.2.7),
+ *                      create_hufftables_icf (frame only, callees by frame-only contracts)
+ *   bounded stand-ins for set_huff_codes, set_dist_huff_codes, rl_encode live in harness/igzip/huff_b.c;
+ *   fix_code_lens: only the arithmetic lemma of one repair step (harness/igzip/huff_c_fix.c)
  * isal_deflate_set_hufftables (igzip.c) is in contracts/igzip_lz.h.
  * Postconditions are stated against contracts/spec_deflate_rfc.h (RFC 1951 tables typed in from the RFC).
  * C_<fn> is spliced in front of the body of <fn>, L_<fn>_<n> after the header of its n-th loop,
@@ -70,15 +74,29 @@ spec_pack_code(uint32_t huff_code, uint32_t huff_len, uint32_t extra_val, uint32
         return ((huff_code | (extra_val << huff_len)) << 5) | (huff_len + extra_bits);
 }
 #define HD_SYM rfc_dist_sym(dist)
+#ifndef LONGER_HUFFTABLE
 #define HD_CODE ((uint32_t) hufftables->dcodes[HD_SYM - IGZIP_DECODE_OFFSET])
 #define HD_LEN ((uint32_t) hufftables->dcodes_sizes[HD_SYM - IGZIP_DECODE_OFFSET])
+#else
+/* LONGER_HUFFTABLE build: dist_table covers distances 1..8192 and dcodes[] holds only symbols 26..29
+ * (IGZIP_DECODE_OFFSET 26), so for a tabulated distance the Huffman code of its symbol is not stored
+ * separately: it is the ghost pair (g_dcode, g_dlen), as for get_len_code */
+extern uint32_t g_dcode, g_dlen;
+#define HD_TAB (dist <= IGZIP_DIST_TABLE_SIZE)
+#define HD_CODE (HD_TAB ? g_dcode : (uint32_t) hufftables->dcodes[HD_TAB ? 0 : HD_SYM - IGZIP_DECODE_OFFSET])
+#define HD_LEN (HD_TAB ? g_dlen : (uint32_t) hufftables->dcodes_sizes[HD_TAB ? 0 : HD_SYM - IGZIP_DECODE_OFFSET])
+#define HD_GHOST_OK (g_dlen <= 15 && g_dcode < (1u << g_dlen))
+#endif
+#ifndef HD_GHOST_OK
+#define HD_GHOST_OK 1
+#endif
 
 #define C_get_dist_code                                                                            \
         __CPROVER_requires(1 <= dist && dist <= 32768)                                             \
         __CPROVER_requires(__CPROVER_is_fresh(hufftables, sizeof(*hufftables)))                    \
         __CPROVER_requires(__CPROVER_is_fresh(code, sizeof(*code)))                                \
         __CPROVER_requires(__CPROVER_is_fresh(len, sizeof(*len)))                                  \
-        __CPROVER_requires(HD_LEN <= 15)                                                           \
+        __CPROVER_requires(HD_LEN <= 15 && HD_GHOST_OK)                                            \
         __CPROVER_requires(dist <= IGZIP_DIST_TABLE_SIZE ==>                                       \
                            hufftables->dist_table[dist <= IGZIP_DIST_TABLE_SIZE ? dist - 1 : 0] == \
                                    spec_pack_code(HD_CODE, HD_LEN, rfc_dist_extra_val(dist),       \
@@ -282,6 +300,7 @@ extern uint32_t g_c, g_n; /* ghost code-length symbol 0..18; ghost copy of the n
 #else
 #define RL_CASE 1
 #endif
+#ifndef RL_ENCODE_LOOP
 #define C_write_rl                                                                                 \
         __CPROVER_requires(last_len <= 15 && 1 <= run_len && run_len <= RL_MAXRUN && RL_DECOMP(run_len) && RL_CASE) \
         __CPROVER_requires(__CPROVER_is_fresh(pout, RL_N * sizeof(struct rl_code)))                \
@@ -324,7 +343,172 @@ extern uint32_t g_c, g_n; /* ghost code-length symbol 0..18; ghost copy of the n
 #if !defined(RL_ONLY_ZERO) && !defined(RL_NO_HOOKS)
 #define H_write_rl_2 VCANARY();
 #endif
+#else /* RL_ENCODE_LOOP: rl_encode is the function under contract (loop contract, any num_codes <= 316) */
+/* rl_encode by loop contract.  write_rl is replaced by a BLOCK stub: what one call emits is the subject of the
+ * write_rl harnesses (exact greedy coding) and of the lemma spec_rl_valid (that coding is RFC-valid and expands to
+ * exactly run_len copies of last_len, self-contained: a non-zero block starts with the literal length).  Here the
+ * stub only does the bookkeeping that makes "the blocks tile the input in order" a checked statement:
+ *   requires (checked at both call sites): last_len <= 15, run_len >= 1, the block starts where the previous one
+ *            ended (pout == w_next) and has room for run_len entries;
+ *   effect:  w_cov += run_len (input positions covered so far); w_next = returned end of the block (1..run_len
+ *            entries further); if the ghost input position g_p lies in [old w_cov, old w_cov + run_len) the call is
+ *            recorded: segment [w_seg_s, w_seg_e), value w_seg_v, start of its block w_seg_out, w_seg_hit++.
+ * Proved for rl_encode: the calls cover [0, num_codes) without gap or overlap (w_cov runs from 0 to num_codes and
+ * equals i - run_len in the loop), the blocks are consecutive in `out` and the return value is their total
+ * length; every input position g_p is inside exactly one segment, the block for that segment was produced
+ * with last_len == codes[g_p] and run_len == segment length, and EVERY position g_q of the segment holds that
+ * value.  Together with write_rl / spec_rl_valid: the expansion of out[0..ret) is codes[0..num_codes). */
+extern uint32_t g_p, g_q, w_cov, w_seg_s, w_seg_e, w_seg_v, w_seg_hit;
+extern struct rl_code *w_next, *w_seg_out;
+#define RLE_HIT (__CPROVER_old(w_cov) <= g_p && g_p < __CPROVER_old(w_cov) + run_len)
+#define C_write_rl                                                                                 \
+        __CPROVER_requires(last_len <= 15 && 1 <= run_len && run_len <= 316 && pout == w_next)     \
+        __CPROVER_requires(__CPROVER_w_ok(pout, run_len * sizeof(struct rl_code)) && __CPROVER_w_ok(counts, 19 * 8)) \
+        /* the entries written are not modelled here (no statement of this harness reads them; a havoc through the    \
+         * loop-havocked pout fans out over every object and exhausts memory) */                   \
+        __CPROVER_assigns(__CPROVER_object_whole(counts), w_cov, w_next, w_seg_s, w_seg_e, w_seg_v, \
+                          w_seg_hit, w_seg_out)                                                    \
+        __CPROVER_ensures(__CPROVER_return_value == w_next && __CPROVER_same_object(w_next, pout) && \
+                          __CPROVER_POINTER_OFFSET(w_next) >= __CPROVER_POINTER_OFFSET(pout) + 2 && \
+                          __CPROVER_POINTER_OFFSET(w_next) <= __CPROVER_POINTER_OFFSET(pout) + 2 * run_len && \
+                          (__CPROVER_POINTER_OFFSET(w_next) & 1) == (__CPROVER_POINTER_OFFSET(pout) & 1)) \
+        __CPROVER_ensures(w_cov == __CPROVER_old(w_cov) + run_len)                                 \
+        __CPROVER_ensures(RLE_HIT ==> (w_seg_s == __CPROVER_old(w_cov) && w_seg_e == w_cov && w_seg_v == last_len && \
+                                       w_seg_out == pout && w_seg_hit == __CPROVER_old(w_seg_hit) + 1)) \
+        __CPROVER_ensures(!RLE_HIT ==> (w_seg_s == __CPROVER_old(w_seg_s) && w_seg_e == __CPROVER_old(w_seg_e) && \
+                                        w_seg_v == __CPROVER_old(w_seg_v) && w_seg_out == __CPROVER_old(w_seg_out) && \
+                                        w_seg_hit == __CPROVER_old(w_seg_hit)))
+#define RLE_OFF(p) __CPROVER_POINTER_OFFSET(p)
+#define RLE_SEG_OK                                                                                 \
+        (w_seg_hit == 1 && w_seg_s <= g_p && g_p < w_seg_e && w_seg_e <= num_codes && w_seg_v == codes[g_p] && \
+         ((w_seg_s <= g_q && g_q < w_seg_e) ==> codes[g_q] == w_seg_v) &&                          \
+         __CPROVER_same_object(w_seg_out, out) && RLE_OFF(w_seg_out) - RLE_OFF(out) <= 2 * (size_t) w_seg_s)
+#define C_rl_encode                                                                                \
+        __CPROVER_requires(1 <= num_codes && num_codes <= 316 && g_p < num_codes && g_q < num_codes) \
+        __CPROVER_requires(__CPROVER_is_fresh(codes, 316 * sizeof(uint16_t)))                      \
+        __CPROVER_requires(__CPROVER_forall {                                                      \
+                unsigned q_;                                                                       \
+                (q_ < 316) ==> codes[q_] <= 15                                                     \
+        })                                                                                         \
+        __CPROVER_requires(__CPROVER_is_fresh(counts, 19 * sizeof(uint64_t)))                      \
+        __CPROVER_requires(__CPROVER_is_fresh(out, 316 * sizeof(struct rl_code)))                  \
+        __CPROVER_requires(w_cov == 0 && w_seg_hit == 0) /* w_next = out: E_ hook (ghost pointers are set by assignment) */ \
+        __CPROVER_assigns(__CPROVER_object_whole(out), __CPROVER_object_whole(counts), w_cov, w_next, w_seg_s, w_seg_e, \
+                          w_seg_v, w_seg_hit, w_seg_out)                                           \
+        __CPROVER_ensures(w_cov == num_codes && RLE_SEG_OK)                                        \
+        __CPROVER_ensures(__CPROVER_same_object(w_next, out) &&                                    \
+                          2 * (size_t) __CPROVER_return_value == RLE_OFF(w_next) - RLE_OFF(out) && \
+                          1 <= __CPROVER_return_value && __CPROVER_return_value <= num_codes)
+#define L_rl_encode_1                                                                              \
+        __CPROVER_assigns(i, run_len, last_len, len, pout, __CPROVER_object_whole(out), __CPROVER_object_whole(counts), \
+                          w_cov, w_next, w_seg_s, w_seg_e, w_seg_v, w_seg_hit, w_seg_out)          \
+        __CPROVER_loop_invariant(1 <= i && i <= num_codes && 1 <= run_len && run_len <= i && w_cov == i - run_len && \
+                                 last_len == codes[i - 1] &&                                       \
+                                 ((i - run_len <= g_q && g_q < i) ==> codes[g_q] == last_len) &&   \
+                                 ((i - run_len <= g_p && g_p < i) ==> codes[g_p] == last_len) &&   \
+                                 pout == w_next && __CPROVER_same_object(pout, out) &&             \
+                                 RLE_OFF(pout) >= RLE_OFF(out) && RLE_OFF(pout) - RLE_OFF(out) <= 2 * (size_t) w_cov && \
+                                 ((RLE_OFF(pout) - RLE_OFF(out)) & 1) == 0 &&                      \
+                                 (w_cov > 0 ==> RLE_OFF(pout) - RLE_OFF(out) >= 2) &&              \
+                                 (g_p < w_cov ==> RLE_SEG_OK) && (g_p >= w_cov ==> w_seg_hit == 0)) \
+        __CPROVER_decreases(num_codes - i)
+#define H_rl_encode_1 VCANARY();
+#define E_rl_encode w_next = out;
+#endif /* RL_ENCODE_LOOP */
 
+
+/* ------------------------------------------------------------------------------------------------
+ * Packed level-0 tables and the ICF length expansion against the RFC tables.  These discharge the
+ * "well-formed packed entry" preconditions of get_len_code / get_dist_code (huffman.h) and tie the ICF
+ * length token 254+length (get_len_icf_code) to the RFC length symbol.
+ *   create_packed_len_table : for every length 3..258 (ghost g_L), sym = RFC symbol of the length:
+ *        packed_table[length-3] == ((code[sym] | extra_val(length) << len[sym]) << 5) | (len[sym] + extra_bits[sym])
+ *   create_packed_dist_table: the same for every distance 1..length (ghost g_D) and the distance alphabet
+ *   expand_hufftables_icf   : lit_len_table[254+length] == (code[sym] | extra_val(length) << len[sym],
+ *        len[sym] + extra_bits[sym]) for every length 3..258; entries below 265 unchanged; dist_table[30] cleared
+ * The code walks the alphabets with running extra-bit counters (264/+4, 3/+2); the loop invariants tie
+ * those counters to rfc_len_extra / rfc_dist_extra and the write position to rfc_*_base.
+ * ---------------------------------------------------------------------------------------------- */
+extern uint32_t g_L, g_D, g_U; /* ghost length 3..258, ghost distance, ghost unchanged-entry index */
+extern uint32_t g_pexp; /* expected packed entry at the ghost position (loop invariants may not call the spec functions) */
+#define PK_LSYM rfc_len_sym(g_L)
+#define PK_LENT(L) ((L) >= 3 && (L) <= 258 ? (L) - 3 : 0)
+#define PK_LEN_OK(idx)                                                                             \
+        (packed_table[idx] ==                                                                      \
+         spec_pack_code(lit_len_hufftable[rfc_len_sym((idx) + 3)].code, lit_len_hufftable[rfc_len_sym((idx) + 3)].length, \
+                        rfc_len_extra_val((idx) + 3), rfc_len_extra_bits(rfc_len_sym((idx) + 3))))
+#define C_create_packed_len_table                                                                  \
+        __CPROVER_requires(__CPROVER_is_fresh(packed_table, 256 * sizeof(uint32_t)))               \
+        __CPROVER_requires(__CPROVER_is_fresh(lit_len_hufftable, 286 * sizeof(struct huff_code)))  \
+        __CPROVER_requires(3 <= g_L && g_L <= 258)                                                 \
+        __CPROVER_requires(__CPROVER_forall {                                                      \
+                unsigned q_;                                                                       \
+                (q_ < 286) ==> lit_len_hufftable[q_].length <= 15                                  \
+        })                                                                                         \
+        __CPROVER_requires(g_pexp == spec_pack_code(lit_len_hufftable[PK_LSYM].code, lit_len_hufftable[PK_LSYM].length, \
+                                                    rfc_len_extra_val(g_L), rfc_len_extra_bits(PK_LSYM))) \
+        __CPROVER_assigns(__CPROVER_object_whole(packed_table))                                    \
+        __CPROVER_ensures(PK_LEN_OK(g_L - 3))
+/* the 2^extra entries of symbol i start at rfc_len_base[i-257]-3 */
+#define PKL_I (i >= 257 && i <= 284 ? i - 257 : 0)
+#define L_create_packed_len_table_1                                                                \
+        __CPROVER_assigns(i, count, extra_bits, extra_bits_count, gain_extra_bits, __CPROVER_object_whole(packed_table)) \
+        __CPROVER_loop_invariant(257 <= i && i <= 285 && extra_bits_count <= 6 &&                  \
+                                 gain_extra_bits == 264 + 4 * extra_bits_count &&                  \
+                                 (i <= 284 ==> (extra_bits_count == rfc_len_extra[PKL_I] && count == rfc_len_base[PKL_I] - 3)) && \
+                                 (i == 285 ==> count == 255) &&                                    \
+                                 (g_L - 3 < (uint32_t) count ==> packed_table[g_L - 3] == g_pexp))              \
+        __CPROVER_decreases(285 - i)
+#define L_create_packed_len_table_2                                                                \
+        __CPROVER_assigns(count, extra_bits, __CPROVER_object_whole(packed_table))                 \
+        __CPROVER_loop_invariant(257 <= i && i <= 284 && extra_bits <= (1 << extra_bits_count) &&  \
+                                 extra_bits_count == rfc_len_extra[PKL_I] &&                       \
+                                 count == rfc_len_base[PKL_I] - 3 + extra_bits && count <= 255 &&  \
+                                 (g_L - 3 < (uint32_t) count ==> packed_table[g_L - 3] == g_pexp))              \
+        __CPROVER_decreases((1 << extra_bits_count) - extra_bits)
+#define H_create_packed_len_table_1 VCANARY();
+#define H_create_packed_len_table_2 VCANARY();
+
+#define PK_DIST_OK(idx)                                                                            \
+        (packed_table[idx] ==                                                                      \
+         spec_pack_code(dist_hufftable[rfc_dist_sym((idx) + 1)].code, dist_hufftable[rfc_dist_sym((idx) + 1)].length, \
+                        rfc_dist_extra_val((idx) + 1), rfc_dist_extra_bits(rfc_dist_sym((idx) + 1))))
+#ifndef PK_MAXLEN
+#define PK_MAXLEN 8192 /* IGZIP_DIST_TABLE_SIZE of the LONGER_HUFFTABLE build; 11 extra bits + 15 + 5 <= 31 */
+#endif
+#define C_create_packed_dist_table                                                                 \
+        __CPROVER_requires(1 <= length && length <= PK_MAXLEN)                                     \
+        __CPROVER_requires(__CPROVER_is_fresh(packed_table, length * sizeof(uint32_t)))            \
+        __CPROVER_requires(__CPROVER_is_fresh(dist_hufftable, 30 * sizeof(struct huff_code)))      \
+        __CPROVER_requires(1 <= g_D && g_D <= length)                                              \
+        __CPROVER_requires(__CPROVER_forall {                                                      \
+                unsigned q_;                                                                       \
+                (q_ < 30) ==> dist_hufftable[q_].length <= 15                                      \
+        })                                                                                         \
+        __CPROVER_requires(g_pexp == spec_pack_code(dist_hufftable[rfc_dist_sym(g_D)].code,        \
+                                                    dist_hufftable[rfc_dist_sym(g_D)].length, rfc_dist_extra_val(g_D), \
+                                                    rfc_dist_extra_bits(rfc_dist_sym(g_D))))       \
+        __CPROVER_assigns(__CPROVER_object_whole(packed_table))                                    \
+        __CPROVER_ensures(PK_DIST_OK(g_D - 1))
+#define PKD_I (i >= 0 && i <= 29 ? i : 0)
+#define L_create_packed_dist_table_1                                                               \
+        __CPROVER_assigns(i, count, extra_bits, extra_bits_count, gain_extra_bits, __CPROVER_object_whole(packed_table)) \
+        __CPROVER_loop_invariant(0 <= i && i <= 30 && extra_bits_count <= 14 &&                    \
+                                 gain_extra_bits == 3 + 2 * extra_bits_count &&                    \
+                                 (i <= 29 ==> (extra_bits_count == rfc_dist_extra[PKD_I] && count == rfc_dist_base[PKD_I] - 1)) && \
+                                 (i == 30 ==> count == 32768) &&                                   \
+                                 0 <= count && (uint32_t) count <= length &&                       \
+                                 (g_D - 1 < (uint32_t) count ==> packed_table[g_D - 1] == g_pexp))             \
+        __CPROVER_decreases(30 - i)
+#define L_create_packed_dist_table_2                                                               \
+        __CPROVER_assigns(count, extra_bits, __CPROVER_object_whole(packed_table))                 \
+        __CPROVER_loop_invariant(0 <= i && i <= 29 && extra_bits <= (1 << extra_bits_count) &&     \
+                                 extra_bits_count == rfc_dist_extra[PKD_I] &&                      \
+                                 count == rfc_dist_base[PKD_I] - 1 + extra_bits && (uint32_t) count <= length && \
+                                 (g_D - 1 < (uint32_t) count ==> packed_table[g_D - 1] == g_pexp))             \
+        __CPROVER_decreases((1 << extra_bits_count) - extra_bits)
+#define H_create_packed_dist_table_1 VCANARY();
+#define H_create_packed_dist_table_2 VCANARY();
 
 /* ------------------------------------------------------------------------------------------------
  * create_hufftables_icf: FRAME contract (C15: no library global is written, in particular not the
@@ -359,12 +543,14 @@ extern uint32_t g_c, g_n; /* ghost code-length symbol 0..18; ghost copy of the n
         __CPROVER_assigns(__CPROVER_object_upto((uint8_t *) codes, 30 * sizeof(struct huff_code)), bl_count[0]) \
         /* ASSUMED: the heap always holds at least two symbols (init_heap32), so symbol 1 or higher has a code */ \
         __CPROVER_ensures(1 <= __CPROVER_return_value && __CPROVER_return_value < 30)
+#ifndef RL_ENCODE_LOOP
 #define C_rl_encode                                                                                \
         __CPROVER_requires(1 <= num_codes && num_codes <= 316 && __CPROVER_r_ok(codes, num_codes * 2) && \
                            __CPROVER_w_ok(counts, 19 * 8) && __CPROVER_w_ok(out, 316 * sizeof(struct rl_code))) \
         __CPROVER_assigns(__CPROVER_object_upto((uint8_t *) counts, 19 * 8),                       \
                           __CPROVER_object_upto((uint8_t *) out, 316 * sizeof(struct rl_code)))    \
         __CPROVER_ensures(__CPROVER_return_value <= 316)
+#endif
 #define C_create_header                                                                            \
         __CPROVER_requires(__CPROVER_w_ok(header_bitbuf, sizeof(*header_bitbuf)) && length <= 316 && \
                            __CPROVER_r_ok(huffman_rep, 316 * sizeof(struct rl_code)) &&            \
@@ -375,10 +561,36 @@ extern uint32_t g_c, g_n; /* ghost code-length symbol 0..18; ghost copy of the n
                           header_bitbuf->m_out_end == __CPROVER_old(header_bitbuf->m_out_end) &&   \
                           __CPROVER_same_object(header_bitbuf->m_out_buf, header_bitbuf->m_out_start) && \
                           __CPROVER_POINTER_OFFSET(header_bitbuf->m_out_buf) + 8 <= g_osz && header_bitbuf->m_bit_count <= 7)
+/* expand_hufftables_icf: full contract (enforced by harness expand_hufftables_icf; its frame is what
+ * create_hufftables_icf_frame uses).  g_ocode/g_olen: code and length of the RFC symbol of g_L on entry. */
+extern uint32_t g_ocode, g_olen;
+#define EX_SYM rfc_len_sym(g_L)
+#ifdef EXPAND_FRAME_ONLY
 #define C_expand_hufftables_icf                                                                    \
         __CPROVER_requires(__CPROVER_w_ok(hufftables, sizeof(*hufftables)))                        \
         __CPROVER_assigns(__CPROVER_object_upto((uint8_t *) hufftables, sizeof(struct hufftables_icf))) \
         __CPROVER_ensures(1)
+#else
+#define C_expand_hufftables_icf                                                                    \
+        __CPROVER_requires(__CPROVER_w_ok(hufftables, sizeof(*hufftables)))                        \
+        __CPROVER_requires(3 <= g_L && g_L <= 258 && g_U < 265)                                    \
+        __CPROVER_requires(__CPROVER_forall {                                                      \
+                unsigned q_;                                                                       \
+                (q_ < 21) ==> hufftables->lit_len_table[265 + q_].length <= 15                     \
+        })                                                                                         \
+        /* entry of the RFC symbol on entry: 16-bit code, nothing in the extra-bits byte (set_huff_codes output) */ \
+        __CPROVER_requires(g_ocode == hufftables->lit_len_table[EX_SYM].code &&                    \
+                           g_ocode == hufftables->lit_len_table[EX_SYM].code_and_extra &&          \
+                           g_olen == hufftables->lit_len_table[EX_SYM].length)                     \
+        __CPROVER_assigns(__CPROVER_object_upto((uint8_t *) hufftables, sizeof(struct hufftables_icf))) \
+        __CPROVER_ensures(g_L >= 11 ==>                                                            \
+                          (hufftables->lit_len_table[254 + g_L].code_and_extra ==                  \
+                                   (g_ocode | (rfc_len_extra_val(g_L) << g_olen)) &&               \
+                           hufftables->lit_len_table[254 + g_L].length == g_olen + rfc_len_extra_bits(EX_SYM))) \
+        __CPROVER_ensures(hufftables->lit_len_table[g_U].code_and_length ==                        \
+                          __CPROVER_old(hufftables->lit_len_table[g_U].code_and_length))           \
+        __CPROVER_ensures(hufftables->dist_table[30].code_and_extra == 0 && hufftables->dist_table[30].length == 0)
+#endif
 extern uint64_t g_osz; /* ghost: size of the output object behind bb */
 #define C_create_hufftables_icf                                                                    \
         __CPROVER_requires(__CPROVER_is_fresh(bb, sizeof(*bb)))                                    \
@@ -404,6 +616,141 @@ extern uint64_t g_osz; /* ghost: size of the output object behind bb */
         __CPROVER_assigns(i, compressed_len, static_compressed_len, __CPROVER_object_whole(combined_table)) \
         __CPROVER_loop_invariant(0 <= i && i <= 30 && (uint32_t) i <= max_d_code + 1)              \
         __CPROVER_decreases(30 - i)
+
+
+#ifdef HUFF_HDR
+/* ------------------------------------------------------------------------------------------------
+ * create_huffman_header / create_header (C18): layout of the dynamic block header, RFC 1951 3.2.7.
+ * write_bits is redirected (macro in harness/igzip/huff_c_hdr.c) to the RECORDING MODEL hh_write_bits:
+ * it checks that the value fits its bit count and that the count fits the bit buffer, advances the
+ * logical position of the bit buffer (out_buf / bit_count exactly as write_bits+flush_bits do) without
+ * storing bytes, and records (value, count) of the calls the contract talks about.  That write_bits
+ * appends exactly value[0..count) to the bit string is the bit-writer contract of the deflate-frame family.
+ * Proved for create_huffman_header (all of it by loop contract, any number of run-length symbols <= 316):
+ *   call 0: 20 bits = BFINAL (end_of_block != 0) | BTYPE=10 | HLIT (5) | HDIST (5) | HCLEN (4) |
+ *           length of code-length code 16 (3)        -- the first entry of the 16,17,18,0,8,... order
+ *   call 1: 3*(hclen+3) bits: 3-bit group j (ghost g_j) = length of code-length code order[j+1]; together
+ *           with call 0 that is HCLEN+4 lengths in the RFC order
+ *   then per run-length symbol i (ghost g_ri), in sequence: its code-length code (code, length), and iff the
+ *           symbol is 16/17/18 a second call with its extra_bits in 2/3/7 bits; no other call
+ *   return value = total number of bits handed to write_bits.
+ * ---------------------------------------------------------------------------------------------- */
+extern uint32_t w_wb_calls, w_wb_bits, w_wb_cnt0, w_wb_cnt1, w_cur, w_sub, w_r_n, w_r_cnt, w_r_xcnt;
+extern uint64_t w_wb_code0, w_wb_code1, w_r_code, w_r_xcode, g_bits0;
+extern uint32_t g_j, g_ri;
+static const uint8_t rfc_cl_order[19] = { 16, 17, 18, 0, 8, 7, 9, 6, 10, 5, 11, 4, 12, 3, 13, 2, 14, 1, 15 };
+#define HH_GHOSTS                                                                                  \
+        w_wb_calls, w_wb_bits, w_wb_cnt0, w_wb_cnt1, w_cur, w_sub, w_r_n, w_r_cnt, w_r_xcnt, w_wb_code0, w_wb_code1, \
+                w_r_code, w_r_xcode
+#define HH_BB header_bitbuf
+#define HH_POS(bb) (8 * (__CPROVER_POINTER_OFFSET((bb)->m_out_buf) - __CPROVER_POINTER_OFFSET((bb)->m_out_start)) + (bb)->m_bit_count)
+#define HH_REP huffman_rep
+#define HH_XBITS(c) ((c) == 16 ? 2u : (c) == 17 ? 3u : 7u)
+#ifndef HDR_CREATE_HEADER
+#define C_create_huffman_header                                                                    \
+        __CPROVER_requires(__CPROVER_is_fresh(HH_BB, sizeof(*HH_BB)))                              \
+        __CPROVER_requires(__CPROVER_is_fresh(lookup_table, 19 * sizeof(struct huff_code)))        \
+        __CPROVER_requires(huffman_rep_length <= 316 && __CPROVER_is_fresh(HH_REP, 316 * sizeof(struct rl_code))) \
+        __CPROVER_requires(hclen <= 15 && hlit <= 29 && hdist <= 29 && g_j < hclen + 3 && g_ri < huffman_rep_length) \
+        __CPROVER_requires(__CPROVER_forall {                                                      \
+                unsigned q_;                                                                       \
+                (q_ < 19) ==> (lookup_table[q_].length <= 7 && lookup_table[q_].code < (1u << lookup_table[q_].length)) \
+        })                                                                                         \
+        __CPROVER_requires(__CPROVER_forall {                                                      \
+                unsigned r_;                                                                       \
+                (r_ < 316) ==> (HH_REP[r_].code <= 18 && HH_REP[r_].extra_bits < (1u << HH_XBITS(HH_REP[r_].code))) \
+        })                                                                                         \
+        __CPROVER_requires(__CPROVER_is_fresh(HH_BB->m_out_start, 2048) && HH_BB->m_out_buf == HH_BB->m_out_start && \
+                           HH_BB->m_bit_count <= 7 && g_bits0 == HH_BB->m_bit_count)               \
+        __CPROVER_requires(w_wb_calls == 0 && w_wb_bits == 0 && w_r_n == 0)                        \
+        __CPROVER_assigns(HH_BB->m_out_buf, HH_BB->m_bit_count, HH_BB->m_bits, HH_GHOSTS)          \
+        __CPROVER_ensures(w_wb_cnt0 == 20 &&                                                       \
+                          w_wb_code0 == ((end_of_block ? 1u : 0u) | (2u << 1) | (hlit << 3) | (hdist << 8) | (hclen << 13) | \
+                                         ((uint32_t) lookup_table[rfc_cl_order[0]].length << 17))) \
+        __CPROVER_ensures(w_wb_cnt1 == 3 * (hclen + 3) &&                                          \
+                          ((w_wb_code1 >> (3 * g_j)) & 7) == lookup_table[rfc_cl_order[g_j + 1]].length && \
+                          (w_wb_code1 >> (3 * (hclen + 3))) == 0)                                  \
+        __CPROVER_ensures(w_r_n == (HH_REP[g_ri].code > 15 ? 2u : 1u) &&                           \
+                          w_r_code == lookup_table[HH_REP[g_ri].code].code &&                      \
+                          w_r_cnt == lookup_table[HH_REP[g_ri].code].length)                       \
+        __CPROVER_ensures(HH_REP[g_ri].code > 15 ==>                                               \
+                          (w_r_xcode == HH_REP[g_ri].extra_bits && w_r_xcnt == HH_XBITS(HH_REP[g_ri].code))) \
+        __CPROVER_ensures(w_wb_calls >= 2 + huffman_rep_length && w_wb_calls <= 2 + 2 * (uint32_t) huffman_rep_length) \
+        __CPROVER_ensures((uint32_t) __CPROVER_return_value == w_wb_bits && HH_POS(HH_BB) == g_bits0 + w_wb_bits)
+/* loop 1 builds the second word from the highest index down: after the iteration for index i the groups of
+ * indices i..hclen+3 are in place, index k at bit 3*(k-i) */
+#define L_create_huffman_header_1                                                                  \
+        __CPROVER_assigns(i, data)                                                                 \
+        __CPROVER_loop_invariant(0 <= i && (uint32_t) i <= hclen + 3 &&                            \
+                                 (data >> (3 * (hclen + 3 - (uint32_t) i))) == 0 &&                \
+                                 ((uint32_t) i <= g_j ==>                                          \
+                                  ((data >> (3 * (g_j - (uint32_t) i))) & 7) == lookup_table[rfc_cl_order[g_j + 1]].length)) \
+        __CPROVER_decreases(i)
+#define H_create_huffman_header_1 VCANARY();
+#define L_create_huffman_header_2                                                                  \
+        __CPROVER_assigns(i, huffman_value, HH_BB->m_out_buf, HH_BB->m_bit_count, HH_BB->m_bits, w_wb_calls, w_wb_bits, \
+                          w_cur, w_sub, w_r_n, w_r_cnt, w_r_xcnt, w_r_code, w_r_xcode)             \
+        __CPROVER_loop_invariant(0 <= i && i <= huffman_rep_length &&                              \
+                                 w_wb_calls >= 2 + (uint32_t) i && w_wb_calls <= 2 + 2 * (uint32_t) i && \
+                                 w_wb_bits <= 20 + 54 + 14 * (uint32_t) i &&                       \
+                                 __CPROVER_same_object(HH_BB->m_out_buf, HH_BB->m_out_start) &&    \
+                                 HH_BB->m_bit_count <= 7 && HH_POS(HH_BB) == g_bits0 + w_wb_bits && \
+                                 ((uint32_t) i <= g_ri ==> w_r_n == 0) &&                          \
+                                 ((uint32_t) i > g_ri ==>                                          \
+                                  (w_r_n == (HH_REP[g_ri].code > 15 ? 2u : 1u) &&                  \
+                                   w_r_code == lookup_table[HH_REP[g_ri].code].code &&             \
+                                   w_r_cnt == lookup_table[HH_REP[g_ri].code].length &&            \
+                                   (HH_REP[g_ri].code > 15 ==>                                     \
+                                    (w_r_xcode == HH_REP[g_ri].extra_bits &&                       \
+                                     w_r_xcnt == (HH_REP[g_ri].code == 16 ? 2u : HH_REP[g_ri].code == 17 ? 3u : 7u))))))  \
+        __CPROVER_decreases(huffman_rep_length - i)
+#define H_create_huffman_header_2                                                                  \
+        w_cur = (uint32_t) i;                                                                      \
+        w_sub = 0;                                                                                 \
+        VCANARY();
+#else /* HDR_CREATE_HEADER: create_header is the function under contract */
+/* create_header: builds the code-length code (heap routines and canonical assignment: frame-only stubs),
+ * determines HCLEN and calls create_huffman_header.  create_huffman_header is replaced by a CHECKING stub
+ * whose requires are obligations of the call site:
+ *   - hclen <= 15, and every code-length code beyond index hclen+3 of the RFC order has length 0 (ghost index
+ *     g_j): dropping them from the header loses nothing -- the decoder assumes 0 for the missing ones;
+ *   - hclen is minimal (hclen == 0 or the last transmitted length is non-zero);
+ *   - hlit, hdist, end_of_block, the run-length symbols and their number are passed through unchanged.
+ * Its return value is an unconstrained ghost (g_hret) that create_header must return. */
+extern uint32_t w_ch_hlit, w_ch_hdist, w_ch_eob, w_ch_len, w_ch_calls;
+extern struct rl_code *w_ch_rep;
+extern struct BitBuf2 *w_ch_bb;
+extern int g_hret;
+#define C_create_huffman_header                                                                    \
+        __CPROVER_requires(hclen <= 15 && g_j < 19)                                                \
+        __CPROVER_requires(g_j > hclen + 3 ==> lookup_table[rfc_cl_order[g_j]].length == 0)        \
+        __CPROVER_requires(hclen == 0 || lookup_table[rfc_cl_order[hclen + 3]].length != 0)        \
+        __CPROVER_assigns(w_ch_hlit, w_ch_hdist, w_ch_eob, w_ch_len, w_ch_calls, w_ch_rep, w_ch_bb) \
+        __CPROVER_ensures(w_ch_hlit == hlit && w_ch_hdist == hdist && w_ch_eob == end_of_block &&  \
+                          w_ch_len == huffman_rep_length && w_ch_rep == huffman_rep &&             \
+                          w_ch_bb == header_bitbuf && w_ch_calls == __CPROVER_old(w_ch_calls) + 1) \
+        __CPROVER_ensures(__CPROVER_return_value == g_hret)
+#define C_init_heap64                                                                              \
+        __CPROVER_requires(__CPROVER_w_ok(heap_space, sizeof(*heap_space)) && __CPROVER_r_ok(histogram, hist_size * 8)) \
+        __CPROVER_assigns(__CPROVER_object_upto((uint8_t *) heap_space, sizeof(struct heap_tree))) \
+        __CPROVER_ensures(1)
+#define C_create_header                                                                            \
+        __CPROVER_requires(__CPROVER_is_fresh(header_bitbuf, sizeof(*header_bitbuf)))              \
+        __CPROVER_requires(length <= 316 && __CPROVER_is_fresh(huffman_rep, 316 * sizeof(struct rl_code))) \
+        __CPROVER_requires(__CPROVER_is_fresh(histogram, 19 * sizeof(uint64_t)))                   \
+        __CPROVER_requires(w_ch_calls == 0 && g_j < 19)                                            \
+        __CPROVER_assigns(w_ch_hlit, w_ch_hdist, w_ch_eob, w_ch_len, w_ch_calls, w_ch_rep, w_ch_bb) \
+        __CPROVER_ensures(w_ch_calls == 1 && w_ch_hlit == hlit && w_ch_hdist == hdist && w_ch_eob == end_of_block && \
+                          w_ch_len == length && w_ch_rep == huffman_rep && w_ch_bb == header_bitbuf) \
+        __CPROVER_ensures(__CPROVER_return_value == g_hret)
+#define L_create_header_1                                                                          \
+        __CPROVER_assigns(i)                                                                       \
+        __CPROVER_loop_invariant(3 <= i && i <= 18 &&                                              \
+                                 ((uint32_t) i < g_j ==> lookup_table[rfc_cl_order[g_j]].length == 0)) \
+        __CPROVER_decreases(i)
+#define H_create_header_1 VCANARY();
+#endif
+#endif /* HUFF_HDR */
 
 #endif /* HUFF_WITH_CODES */
 
